@@ -25,7 +25,7 @@ pub struct ChildResp {
 }
 
 /// The observed call, executed here (also used by the child process).
-pub fn perform(kind: &str, hash: HashId, params: &[(u32, u32)], seed: &[u8], prv: &[u8], msg: &[u8], ctx: Context) -> Option<(Vec<u8>, Vec<u8>)> {
+pub fn perform(kind: &str, hash: HashId, params: &[(u32, u32)], seed: &[u8], prv: &[u8], msg: &[u8], ctx: Context, via_obj: bool) -> Option<(Vec<u8>, Vec<u8>)> {
     match kind {
         "Keygen" => {
             let mut aux = vec![0u8; 3000];
@@ -41,7 +41,8 @@ pub fn perform(kind: &str, hash: HashId, params: &[(u32, u32)], seed: &[u8], prv
         "Sign" => {
             let mut succ = vec![];
             let out = match ctx {
-                Context::OtherApi => match lib::signing_key_from_bytes(hash, prv) {
+                // the other entry point than the one the observed call used
+                Context::OtherApi if !via_obj => match lib::signing_key_from_bytes(hash, prv) {
                     Outcome::Ok(mut o) => {
                         let r = o.try_sign(msg);
                         succ = o.bytes();
@@ -68,7 +69,7 @@ pub fn child_main() {
     let mut s = String::new();
     std::io::Read::read_to_string(&mut std::io::stdin(), &mut s).unwrap();
     let req: ChildReq = serde_json::from_str(&s).expect("bad request");
-    let r = perform(&req.kind, req.hash, &req.params, &unhex(&req.seed).unwrap(), &unhex(&req.prv).unwrap(), &unhex(&req.msg).unwrap(), Context::Again);
+    let r = perform(&req.kind, req.hash, &req.params, &unhex(&req.seed).unwrap(), &unhex(&req.prv).unwrap(), &unhex(&req.msg).unwrap(), Context::Again, false);
     let resp = match r {
         Some((a, b)) => ChildResp { ok: true, a: hex(&a), b: hex(&b) },
         None => ChildResp { ok: false, a: String::new(), b: String::new() },
@@ -110,7 +111,7 @@ pub fn op_recheck(w: &mut World, op_ref: usize, ctx: Context) {
             }
         }
     } else {
-        perform(rec.kind, cfg.hash, &cfg.params, &cfg.seed, &rec.prv_in, &rec.msg, ctx)
+        perform(rec.kind, cfg.hash, &cfg.params, &cfg.seed, &rec.prv_in, &rec.msg, ctx, rec.via_obj)
     };
     w.fault(&format!("recheck-{:?}", ctx));
     w.oracle_evaluated();
